@@ -121,7 +121,9 @@ impl Prop for C15 {
                     // when almost all DHW electricity is auxiliary energy; scale = DHW inputs / demand
                     let dem = ep.balance.needs.ACS.unwrap_or(0.0).abs() as f64;
                     let s_dhw: f64 = b.lines.iter().filter(|l| !matches!(l.kind, Kind::Used { srv: Srv::NEPB, .. })).map(|l| l.vals.iter().map(|x| x.abs() as f64).sum::<f64>()).sum();
-                    let tl = 1e-4 + 16.0 * crate::tol::EPS32 * s_dhw / dem.max(1e-12);
+                    // (16 + 2 n) ulp: the library's annual sums are plain f32 sums, whose rounding drifts by up to n/2 ulp
+                    // (2.7e-4 relative was observed on an 8 760-step series of equal small values)
+                    let tl = 1e-4 + (16.0 + 2.0 * n as f64) * crate::tol::EPS32 * s_dhw / dem.max(1e-12);
                     ensure!((*v as f64 - e).abs() <= tl, "closed_form", "reported renewable fraction {} but the closed form gives {} (tol {:e})", v, e, tl);
                     ensure!(*v as f64 >= -tl && *v as f64 <= 1.0 + tl, "in_unit_interval", "fraction {} outside [0, 1]", v);
                     ctx.label("value");
@@ -192,7 +194,7 @@ impl Prop for C15 {
                 (Ok(a), Ok(bb)) => {
                     let dem = ep.balance.needs.ACS.unwrap_or(0.0).abs() as f64;
                     let s_dhw: f64 = b.lines.iter().map(|l| l.vals.iter().map(|x| x.abs() as f64).sum::<f64>()).sum();
-                    let tl = 2e-5 + 16.0 * crate::tol::EPS32 * s_dhw / dem.max(1e-12);
+                    let tl = 2e-5 + (16.0 + 2.0 * n as f64) * crate::tol::EPS32 * s_dhw / dem.max(1e-12);
                     let same = (a.is_nan() && bb.is_nan()) || ((a - bb).abs() as f64) <= tl;
                     ensure!(same, "invariance", "{}: fraction changes from {} to {}", what, a, bb);
                 }
